@@ -97,6 +97,36 @@ CHECKS = {
         "results against an exact rational oracle solved from the intercepted declarations.",
    note=TB + "+ - == < are conditional on conversion soundness (C04). Float rounding is measured at 1e-9, not proved; near-ties excluded. Axioms: none.",
    tech="Rocq proof: homomorphism of the value function over Q (field) + vm_compute correspondence", ref="DESIGN.md §4 C06"),
+ "C09": dict(
+   text="Theorems C09_chain_telescope, C09_chain_bound (every chain of declared edges that uses each table edge at most once equals the size ratio of its end "
+        "points within the product of the per-edge bounds of its component), C09_chains_agree (a declared edge against every other such chain), "
+        "C09_edges_within_bounded / C09_slack_is_product (the reflective check establishes the hypotheses). Per run, on the declarations intercepted from the "
+        "shipped modules: edges_ok and slack_ok by vm_compute for every connected component of the declaration graph (every directed table entry within its "
+        "bound of a size certificate re-checked in the kernel; total slack <= 1e-5 x degree), every declaration still in the table (no overwrite), and "
+        "all_named_reach_si: the planner model converts every named physical unit to and from the coherent SI unit on the regenerated table; the same "
+        "conversions run on the implementation against the model and the exact oracle.",
+   note=TB + "The certificate solver is untrusted (its output is re-checked). Known findings: the two ton-of-refrigeration declarations disagree by 6.7e-4 "
+        "(pinned by tests), units routed through that edge, donkeypower does not reach SI. Dimensionless named units are outside the reach-SI clause. Axioms: none.",
+   tech="Rocq proof: telescoping chain bound (induction, NoDup product lemma) + reflective vm_compute on the regenerated declarations", ref="DESIGN.md §4 C09"),
+ "C10": dict(
+   text="Theorems C10_plan_affine / C10_convert_affine (convert is an affine map of the magnitude for every plan, offsets included), C10_affine_case (a finite "
+        "kernel check of a plan's two coefficients lifts to every magnitude), C10_differences_scale, C10_roundtrip_exact, C10_order_preserved. Per run: the "
+        "temperature graph is regenerated from the source and Lemma temperature_affine is discharged by vm_compute for all 16 ordered pairs of {K, degC, degF, R} x "
+        "(no prefix + every registered prefix)^2: each plan is the ideal affine map of the exact decimal definitions within 2^-48; the same grid plus "
+        "int/float/Decimal magnitudes (below absolute zero included) and cross-scale comparisons run on the implementation against the model (kernel) and the closed form.",
+   note=TB + "The prefix family is the registered prefixes (finite, exhaustive), not arbitrary Prefix(b, e). Float rounding of the implementation is measured "
+        "(1e-11 against the exact model with an absolute reference for cancelling terms). Axioms: none.",
+   tech="Rocq proof: affine form of plan application + reflective vm_compute check on the regenerated temperature graph", ref="DESIGN.md §4 C10"),
+ "C14": dict(
+   text="Theorems C14_add/sub/mul/div/pow: the uncertainty formulas of Measurement equal sqrt((df/dx sx)^2+(df/dy sy)^2) with the partial derivatives taken by "
+        "Coquelicot's Derive, over the reals, for all measurands (zero included for + - *), all sigmas and every non-zero integer exponent; C14_pow_closed_form, "
+        "C14_nonneg, C14_plain_quantity_*. Tie A: a fail-closed ast translator re-derives the radicand expression trees from Measurement.__add__/__sub__/__mul__/"
+        "__truediv__/_join_uncertainties/__pow__ on every run and Coq checks they are the trees the theorems are about. Tie B: measurand and squared uncertainty "
+        "of the implementation vs the model in the kernel (exact rationals, 1e-9) over signed, zero and Decimal operands in mixed units.",
+   note=TB + "Axioms (standard library reals, via Reals/Coquelicot): ClassicalDedekindReals.sig_not_dec, ClassicalDedekindReals.sig_forall_dec, "
+        "FunctionalExtensionality.functional_extensionality_dep, Classical_Prop.classic. math.sqrt and float products are measured, not proved. "
+        "Unit independence of the result rests on quantity arithmetic (C06).",
+   tech="Rocq proof over R with Coquelicot derivatives + source-to-expression translator + vm_compute correspondence on squares", ref="DESIGN.md §4 C14"),
  "C11": dict(
    text="Theorems C11_prefix_mul/div/pow/root (exact values of same-base prefix arithmetic), C11_prefixed_quantity, "
         "C11_power_distributes (normal-form equality), C11_divide_by_prefixed, C11_unprefixed. Correspondence: prefix-heavy operator "
